@@ -43,6 +43,11 @@ def run(ctx, chk):
                 continue
             if any(("ByteReg" in t or "WordReg" in t or "Flags" in t) for t in sig["inputs"]):
                 continue
+            if any(t.replace("&mut ", "").replace("&", "").strip() in ("usize", "isize", "u32", "u64") for t in sig["inputs"]):
+                # a helper that is handed an address / index / wide intermediate has a precondition on it (callers pass
+                # values < 2^20): its sites are classified in the contexts of the productions that call it, not for an
+                # arbitrary argument
+                continue
             ranges = {}
             names = [l["name"] for l in f["locals"][1:f["argc"] + 1]]
             if n.startswith("instructions::bit_manipulation::word_") and names and names[-1] == "num":
